@@ -126,12 +126,16 @@ func (p *makefileParser) handleTarget(
 
 	// Create the TargetDTO.
 	target := &TargetDTO{
-		Name:         targetName,
-		Command:      "make " + targetName,
-		Dependencies: annotation.Dependencies,
-		Inputs:       annotation.Inputs,
-		Outputs:      annotation.Outputs,
-		Tags:         annotation.Tags,
+		Name:                 targetName,
+		Command:              "make " + targetName,
+		Dependencies:         annotation.Dependencies,
+		Inputs:               annotation.Inputs,
+		Outputs:              annotation.Outputs,
+		Tags:                 annotation.Tags,
+		Fingerprint:          annotation.Fingerprint,
+		EnvironmentVariables: annotation.EnvironmentVariables,
+		Timeout:              annotation.Timeout,
+		Platforms:            annotation.Platforms,
 	}
 
 	// Use the annotation's name as key if provided, otherwise use the target name.
